@@ -98,6 +98,39 @@ class Walker(Monitor):
             loaded = dill.loads(dill.dumps((walker, [item for item, _ in items])))
             self._explore(loaded[0], [(c, rate) for c, (_, rate) in zip(loaded[1], items)], "dill_round_trip")
 
+        self._explore_offset_mapping()
+
+    def _explore_offset_mapping(self):
+        """Every (active cell, offset) pair of the configured grid (a seeded sample of the active cells on large
+        grids): the cell the real cell system reports at that offset is the active cell plus the offset modulo the
+        grid."""
+        import random
+        ctx = self.ctx
+        rng = random.Random(ctx.scenario["seed"] ^ 0xC18)
+        done = set()
+        for handler, tagger in list(getattr(ctx, "handler_tagger", {}).items()):
+            if ctx.kind(handler) != "cell_veto":
+                continue
+            cells = getattr(getattr(tagger, "internal_state", None), "cells", None)
+            if cells is None or id(cells) in done or not hasattr(cells, "translate"):
+                continue
+            done.add(id(cells))
+            every = list(cells.yield_cells())
+            ids = [tuple(c.identifier) for c in every]
+            per_side = [max(i[d] for i in ids) + 1 for d in range(len(ids[0]))]
+            actives = every if len(every) ** 2 <= 60000 else rng.sample(every, max(1, 60000 // len(every)))
+            for active in actives:
+                for offset in every:
+                    expected = tuple((a + o) % n for a, o, n in zip(active.identifier, offset.identifier, per_side))
+                    got = cells.translate(active, offset)
+                    if tuple(got.identifier) != expected:
+                        ctx.violation("C18", "cell_at_offset_is_not_active_cell_plus_offset",
+                                      {"active_cell": tuple(active.identifier), "offset": tuple(offset.identifier),
+                                       "reported": tuple(got.identifier), "expected": expected,
+                                       "cells_per_side": per_side})
+            ctx.probes["c18_offset_pairs_checked"] += len(actives) * len(every)
+            ctx.probes["c18_grids_checked"] += 1
+
     def _explore(self, walker, items, variant="original"):
         ctx = self.ctx
         total = sum(rate for _, rate in items)
